@@ -180,6 +180,51 @@ pub fn run(a: &Args) {
             }
         }
     }
+    // values built from parts that the packet generator cannot express: a TXT without any character-string
+    // (TXT::new / default), TXTs from every convenience constructor, records without RDATA, opaque records with
+    // supported and unsupported type codes, a record with typed SvcParams -- the owned form and the clone of each
+    {
+        use simple_dns::rdata::{HTTPS, NULL, SVCB, TXT};
+        use simple_dns::{CharacterString, TYPE};
+        use std::convert::TryFrom;
+        let mut c = Cmp { out: &mut out, st: &mut st };
+        let mut parts: Vec<RData<'static>> = vec![RData::TXT(TXT::new()), RData::TXT(TXT::default())];
+        for t in ["", "a", "k=v"] {
+            if let Ok(x) = TXT::new().with_string(t) {
+                parts.push(RData::TXT(x));
+            }
+        }
+        let long: &'static str = Box::leak("x".repeat(600).into_boxed_str());
+        if let Ok(x) = TXT::try_from(long) {
+            parts.push(RData::TXT(x));
+        }
+        let mut m = std::collections::HashMap::new();
+        m.insert("k".to_string(), Some("v".to_string()));
+        m.insert("flag".to_string(), None);
+        if let Ok(x) = TXT::try_from(m) {
+            parts.push(RData::TXT(x));
+        }
+        parts.push(RData::TXT(TXT::new().with_char_string(CharacterString::new(b"").unwrap())));
+        for t in [TYPE::A, TYPE::TXT, TYPE::SRV, TYPE::NULL, TYPE::Unknown(65280)] {
+            parts.push(RData::Empty(t));
+        }
+        for code in [0u16, 1, 10, 16, 99, 65280] {
+            parts.push(RData::NULL(code, NULL::new(&[1, 2, 3]).unwrap()));
+        }
+        let mut s = SVCB::new(1, Name::new_unchecked("svc.example"));
+        s.set_port(443);
+        s.set_no_default_alpn();
+        let _ = s.set_ipv4hint([0x0a000001u32]);
+        parts.push(RData::SVCB(s.clone()));
+        parts.push(RData::HTTPS(HTTPS(s)));
+        for rd in &parts {
+            c.rdata("built-parts", "own", rd, &rd.clone().into_owned());
+            c.rdata("built-parts", "clone", rd, &rd.clone());
+            let rr = ResourceRecord::new(Name::new_unchecked("p.example"), CLASS::IN, 30, rd.clone());
+            c.rr("built-parts", "own", &rr, &rr.clone().into_owned());
+            c.rr("built-parts", "clone", &rr, &rr.clone());
+        }
+    }
     // set-valued instance information: same members inserted in different orders (cases from TLC)
     for case in load_cases(a, 1) {
         let build = |ips: &Value, ports: &Value, attrs_rev: bool| {
